@@ -95,6 +95,44 @@ def contradicted_branches(cfg, node: int) -> set[int]:
     return out
 
 
+def inlined_calls(meth: ast.AST, func: ast.AST) -> list[ast.Call]:
+    """Calls in ``func`` that are the one-call body of the method ``meth`` written in place of ``self.meth(..)``: the
+    same call with the parameters of ``meth`` replaced consistently by expressions."""
+    body = [b for b in meth.body if not (isinstance(b, ast.Expr) and isinstance(b.value, ast.Constant))]
+    if len(body) != 1 or not isinstance(body[0], (ast.Expr, ast.Return)) or not isinstance(body[0].value, ast.Call):
+        return []
+    pattern = body[0].value
+    params = {a.arg for a in meth.args.args[1:]}
+
+    def unify(p_: ast.AST, t_: ast.AST, env: dict) -> bool:
+        if isinstance(p_, ast.Name) and p_.id in params:
+            txt = ast.dump(t_)
+            return env.setdefault(p_.id, txt) == txt
+        if type(p_) is not type(t_):
+            return False
+        for (fa, va), (fb, vb) in zip(ast.iter_fields(p_), ast.iter_fields(t_)):
+            if fa in ("ctx", "lineno", "col_offset", "end_lineno", "end_col_offset", "type_comment"):
+                continue
+            if isinstance(va, ast.AST):
+                if not isinstance(vb, ast.AST) or not unify(va, vb, env):
+                    return False
+            elif isinstance(va, list):
+                if not isinstance(vb, list) or len(va) != len(vb) or not all(unify(x, y, env) if isinstance(x, ast.AST) else x == y for x, y in zip(va, vb)):
+                    return False
+            elif va != vb:
+                return False
+        return True
+
+    def same_attr(a: str, b: str) -> bool:
+        return a == b or a.endswith(b.lstrip("_")) and b.startswith("__") or b.endswith(a.lstrip("_")) and a.startswith("__")
+
+    out = []
+    for c in walk_body(func):
+        if isinstance(c, ast.Call) and unify(pattern, c, {}):
+            out.append(c)
+    return out
+
+
 def store_protocol(ctx: Ctx, prefix: str, which: set[str]) -> None:
     """Ordering facts of ``Database.store``.
 
@@ -133,8 +171,8 @@ def store_protocol(ctx: Ctx, prefix: str, which: set[str]) -> None:
         ok = any(v and isinstance(cfg.ast[t].test, ast.Compare) and dotted(cfg.ast[t].test.left) == entry and isinstance(cfg.ast[t].test.ops[0], ast.Is) for t, v in conds)
         ctx.ob(f"{prefix}-write", con, ok, "a new entry may only be created when no entry exists for the key (otherwise recorded outputs are dropped)", node=w, stmt="new entry only if entry is None")
     write_nodes = {cfg.node_of(w) for w in writes} | {cfg.node_of(u) for u in updates}
-    notify_new = rules.self_calls(f, "notify_new_iter_listeners")
-    notify_store = rules.self_calls(f, "notify_store_listeners")
+    notify_new = rules.self_calls(f, "notify_new_iter_listeners") or inlined_calls(ctx.index.method(DB, "Database", "notify_new_iter_listeners"), f)
+    notify_store = rules.self_calls(f, "notify_store_listeners") or inlined_calls(ctx.index.method(DB, "Database", "notify_store_listeners"), f)
     ctx.need(len(notify_new) == 1 and len(notify_store) == 1, "Database.store: listener notifications not found")
     if "emptiness" in which:
         empt = [s for s in stmts_of(f) if isinstance(s, ast.Assign) and isinstance(s.value, ast.UnaryOp) and isinstance(s.value.op, ast.Not) and dotted(s.value.operand) == entry and isinstance(s.targets[0], ast.Name)]
@@ -160,21 +198,21 @@ def store_protocol(ctx: Ctx, prefix: str, which: set[str]) -> None:
         ctx.ob(f"{prefix}-notify-after-write", con, ok, "listeners must be notified after the data is in the mapping (callbacks read it)", node=notify_new[0])
     if "pending" in which:
         pend = [c for c in walk_body(f) if isinstance(c, ast.Call) and last_attr(c) == "add_pending_array"]
-        ctx.ob(f"{prefix}-pending-always", con, len(pend) == 1, "every store must mark its point pending for the next incremental export (add_pending_array is missing)", node=(pend or [f])[0], stmt="add_pending_array present")
-        if len(pend) != 1:
+        ctx.ob(f"{prefix}-pending-always", con, bool(pend), "every store must mark its point pending for the next incremental export (add_pending_array is missing)", node=(pend or [f])[0], stmt="add_pending_array present")
+        if not pend:
             return
-        pn = cfg.node_of(pend[0])
-        ok = bool(pend[0].args) and dotted(pend[0].args[0]) == key
+        pns = {cfg.node_of(p_) for p_ in pend}
+        ok = all(bool(p_.args) and dotted(p_.args[0]) == key for p_ in pend)
         ctx.ob(f"{prefix}-pending-key", con, ok, "the pending array must be the converted (copied) key", node=pend[0])
         for nt in (*notify_new, *notify_store):
-            ok = cfg.dominates(pn, cfg.node_of(nt))
+            ok = cfg.must_pass(cfg.entry, pns, cfg.node_of(nt))
             ctx.ob(f"{prefix}-pending-before-notify", con, ok, "a point must be marked pending before listeners (the backup export) are notified, otherwise the export misses it", node=nt)
         # the store listeners (the backup export when it is made at each function call) run before the new-iteration
         # listeners: those evaluate the observables, i.e. execute disciplines, and a crash there must find the value
         # just stored already in the file
         ok = not cfg.reachable(cfg.node_of(notify_new[0]), cfg.node_of(notify_store[0])) and cfg.reachable(cfg.node_of(notify_store[0]), cfg.node_of(notify_new[0]))
         ctx.ob(f"{prefix}-export-before-new-iteration", con, ok, "the store listeners (backup export) must be notified before the new-iteration listeners: the latter execute disciplines (observables), and if the process dies there the value that was just stored is not in the backup", node=notify_new[0], stmt="store listeners before new-iteration listeners")
-        ok = cfg.must_pass(cfg.entry, {pn})
+        ok = cfg.must_pass(cfg.entry, pns)
         ctx.ob(f"{prefix}-pending-always", con, ok, "every store must mark its point pending for the next incremental export", node=pend[0], stmt="add_pending_array on every path")
         for nt in (*notify_new, *notify_store):
             ok = cfg.must_pass(cfg.entry, write_nodes, cfg.node_of(nt))
@@ -321,15 +359,64 @@ def lock_discipline(ctx: Ctx, rule: str) -> None:
     # the decorators take the object's own lock
     for name, attr in (("synchronized", "lock"), ("synchronized_hashes", "lock_hashes")):
         g = ctx.index.func("utils/locks.py", name)
-        withs = [s for s in ast.walk(g) if isinstance(s, ast.With)]
-        # every call of the wrapped method happens inside the block; its result is what the wrapper returns (returned
-        # from inside the block, or kept in a local and returned after it)
-        calls_ = [c_ for c_ in ast.walk(g) if isinstance(c_, ast.Call) and dotted(c_.func) == "wrapped"]
-        ok = len(withs) == 1 and norm_stmt(withs[0].items[0].context_expr) == f"args[0].{attr}" and bool(calls_) and all(any(c_ is x_ for x_ in ast.walk(withs[0])) for c_ in calls_)
-        if ok:
-            held = {t_.id for s_ in ast.walk(g) if isinstance(s_, ast.Assign) and s_.value in calls_ for t_ in s_.targets if isinstance(t_, ast.Name)}
-            ok = any(isinstance(r, ast.Return) and (r.value in calls_ or (isinstance(r.value, ast.Name) and r.value.id in held)) for r in ast.walk(g))
-        ctx.ob(rule + "-decorator", cname("utils/locks.py", None, name), ok, f"@{name} must run the wrapped method inside `with args[0].{attr}`", node=g)
+        ok = _decorator_holds(g, attr)
+        ctx.ob(rule + "-decorator", cname("utils/locks.py", None, name), ok, f"@{name} must run the wrapped method while holding the `{attr}` of the object it is called on (`with args[0].{attr}`, or acquire / try / finally release), and return its result", node=g)
+
+
+def _decorator_holds(g: ast.AST, attr: str) -> bool:
+    """The decorator ``g(wrapped)`` returns a wrapper whose every call of ``wrapped`` runs while the lock ``attr`` of the
+    first positional argument is held, and which returns the result of that call."""
+    from gv.dataflow import SymValues
+
+    if not g.args.args:
+        return False
+    wrapped = g.args.args[0].arg
+    inner = [n for n in g.body if isinstance(n, (ast.FunctionDef, ast.AsyncFunctionDef))]
+    if len(inner) != 1 or not any(isinstance(r, ast.Return) and isinstance(r.value, ast.Name) and r.value.id == inner[0].name for r in g.body):
+        return False
+    w = inner[0]
+    # the object: first element of the variadic positional arguments, or the first named parameter
+    if w.args.args:
+        receivers = {w.args.args[0].arg}
+    elif w.args.vararg:
+        receivers = {f"{w.args.vararg.arg}[0]"}
+    else:
+        return False
+    sv = SymValues(w)
+
+    def is_lock(e: ast.AST) -> bool:
+        ts = sv.texts(e)
+        return bool(ts) and all(any(t == f"{r}.{attr}" for r in receivers) for t in ts)
+
+    calls_ = [c_ for c_ in ast.walk(w) if isinstance(c_, ast.Call) and dotted(c_.func) == wrapped]
+    if not calls_:
+        return False
+    regions: list[list[ast.stmt]] = []
+    for n in ast.walk(w):
+        if isinstance(n, ast.With) and any(is_lock(it.context_expr) for it in n.items):
+            regions.append(n.body)
+    for blk in _blocks_of(w):
+        for k, st in enumerate(blk):
+            # L.acquire() immediately followed by try: ... finally: L.release()
+            if isinstance(st, ast.Expr) and isinstance(st.value, ast.Call) and isinstance(st.value.func, ast.Attribute) and st.value.func.attr == "acquire" and not st.value.args and not st.value.keywords and is_lock(st.value.func.value) and k + 1 < len(blk) and isinstance(blk[k + 1], ast.Try):
+                t = blk[k + 1]
+                rel = [x for x in t.finalbody if isinstance(x, ast.Expr) and isinstance(x.value, ast.Call) and isinstance(x.value.func, ast.Attribute) and x.value.func.attr == "release" and is_lock(x.value.func.value)]
+                if len(rel) == 1:
+                    regions.append(t.body)
+    inside = {id(x) for r in regions for s_ in r for x in ast.walk(s_)}
+    if not all(id(c_) in inside for c_ in calls_):
+        return False
+    held = {t_.id for s_ in ast.walk(w) if isinstance(s_, ast.Assign) and s_.value in calls_ for t_ in s_.targets if isinstance(t_, ast.Name)}
+    rets = [r for r in ast.walk(w) if isinstance(r, ast.Return)]
+    return bool(rets) and all(r.value in calls_ or (isinstance(r.value, ast.Name) and r.value.id in held) for r in rets)
+
+
+def _blocks_of(f: ast.AST):
+    for n in ast.walk(f):
+        for fld in ("body", "orelse", "finalbody"):
+            b = getattr(n, fld, None)
+            if isinstance(b, list) and b and isinstance(b[0], ast.stmt):
+                yield b
 
 
 # ---------------------------------------------------------------------------
